@@ -851,3 +851,4 @@ def finish(tier, rep: Report):
     if rep.counters.get("square_border_ok_len>=5") and not rep.counters.get("square_excluded_chord_on_one_side"):
         fails.append("square borders of length >= 5 were placed correctly but the one-side exclusion never triggered")
     return fails
+
